@@ -276,6 +276,103 @@ theorem minv_filter (t : T) (p : Writer → Bool) (h : MInv t) :
     simp only [List.mem_filter] at hw
     exact h.timers w hw.1
 
+/-- the synchronous actions of a batch keep the message invariant, and the queue of runnable
+tasks (woken writers + new senders) stays a set of distinct, used, unwritten messages with live
+timers -/
+theorem sinv_syncAct (t : T) (q : List Writer) (a : Act) (h : MInv t) (hq : Woken t q) :
+    MInv (t.syncAct q a).1 ∧ Woken (t.syncAct q a).1 (t.syncAct q a).2.1 := by
+  cases a with
+  | send s m =>
+    simp only [T.syncAct]
+    split
+    · exact ⟨h, hq⟩
+    · rename_i hnew
+      have hnew' : m ∉ t.used := by simpa using hnew
+      have hnw : m ∉ t.wire := fun hx => hnew' (h.wireUsed m hx)
+      have hnb : m ∉ msgs t.blocked := fun hx => hnew' (h.blockedUsed m hx)
+      have hnq : m ∉ msgs q := fun hx => hnew' (hq.used m hx)
+      refine ⟨⟨fun x hx => by simp [T.use]; exact Or.inl (h.wireUsed x hx),
+         fun x hx => by simp [T.use]; exact Or.inl (h.blockedUsed x hx),
+         h.wireNodup, h.blockedNodup, h.disjoint, h.delayPos, h.timers⟩, ⟨?_, ?_, ?_, ?_, ?_⟩⟩
+      · intro x hx
+        simp only [msgs, List.map_append, List.mem_append, List.map_cons, List.map_nil,
+          List.mem_singleton, T.use] at hx ⊢
+        rcases hx with hx | rfl
+        · exact Or.inl (hq.used x hx)
+        · exact Or.inr rfl
+      · simp only [msgs, List.map_append, List.map_cons, List.map_nil]
+        rw [List.nodup_append]; refine ⟨hq.nodup, by simp, ?_⟩
+        intro a ha b hb hab; simp at hb; subst hb; subst hab; exact hnq ha
+      · intro x hx
+        simp only [msgs, List.map_append, List.mem_append, List.map_cons, List.map_nil,
+          List.mem_singleton] at hx
+        rcases hx with hx | rfl
+        · exact hq.notWire x hx
+        · exact hnw
+      · intro x hx
+        simp only [msgs, List.map_append, List.mem_append, List.map_cons, List.map_nil,
+          List.mem_singleton] at hx
+        rcases hx with hx | rfl
+        · exact hq.notBlocked x hx
+        · exact hnb
+      · intro w hw
+        simp only [List.mem_append, List.mem_singleton] at hw
+        rcases hw with hw | rfl
+        · exact hq.timers w hw
+        · have := h.delayPos; simp only [T.use]; omega
+  | pause =>
+    simp only [T.syncAct]
+    obtain ⟨h1, h2, h3, h4, h5⟩ := pause_frame t
+    exact ⟨⟨by rw [h1, h3]; exact h.wireUsed, by rw [h2, h3]; exact h.blockedUsed,
+            by rw [h1]; exact h.wireNodup, by rw [h2]; exact h.blockedNodup,
+            by rw [h1, h2]; exact h.disjoint, by rw [h5]; exact h.delayPos,
+            by rw [h2, h4, h5]; exact h.timers⟩,
+           ⟨by rw [h3]; exact hq.used, hq.nodup, by rw [h1]; exact hq.notWire,
+            by rw [h2]; exact hq.notBlocked, by rw [h4, h5]; exact hq.timers⟩⟩
+  | resume =>
+    simp only [T.syncAct]
+    split
+    · exact ⟨h, hq⟩
+    · split
+      · exact ⟨⟨h.wireUsed, h.blockedUsed, h.wireNodup, h.blockedNodup, h.disjoint, h.delayPos,
+                h.timers⟩,
+               ⟨hq.used, hq.nodup, hq.notWire, hq.notBlocked, hq.timers⟩⟩
+      · refine ⟨minv_cleared t _ h rfl rfl rfl rfl, ⟨?_, ?_, ?_, ?_, ?_⟩⟩
+        · intro x hx
+          simp only [msgs, List.map_append, List.mem_append] at hx
+          rcases hx with hx | hx
+          · exact hq.used x hx
+          · exact h.blockedUsed x hx
+        · simp only [msgs, List.map_append]
+          rw [List.nodup_append]
+          refine ⟨hq.nodup, h.blockedNodup, ?_⟩
+          intro a ha b hb hab; subst hab; exact hq.notBlocked a ha hb
+        · intro x hx
+          simp only [msgs, List.map_append, List.mem_append] at hx
+          rcases hx with hx | hx
+          · exact hq.notWire x hx
+          · exact h.disjoint x hx
+        · intro x _ hb; simp [T.resumed, msgs] at hb
+        · intro w hw
+          simp only [List.mem_append] at hw
+          rcases hw with hw | hw
+          · exact hq.timers w hw
+          · exact h.timers w hw
+
+theorem sinv_sync (acts : List Act) : ∀ (t : T) (q : List Writer), MInv t → Woken t q →
+    MInv (t.sync q acts).1 ∧ Woken (t.sync q acts).1 (t.sync q acts).2.1 := by
+  induction acts with
+  | nil => intro t q h hq; exact ⟨h, hq⟩
+  | cons a as ih =>
+    intro t q h hq
+    simp only [T.sync]
+    obtain ⟨h1, h2⟩ := sinv_syncAct t q a h hq
+    exact ih _ _ h1 h2
+
+theorem woken_nil (t : T) : Woken t [] :=
+  ⟨by intro m hm; simp [msgs] at hm, by simp [msgs], by intro m hm; simp [msgs] at hm,
+   by intro m hm; simp [msgs] at hm, by intro w hw; simp at hw⟩
+
 theorem minv_step (t : T) (e : Event) (h : MInv t) : MInv (step t e).1 := by
   unfold step
   cases e with
@@ -348,6 +445,10 @@ theorem minv_step (t : T) (e : Event) (h : MInv t) : MInv (step t e).1 := by
       · exact ⟨h.wireUsed, h.blockedUsed, h.wireNodup, h.blockedNodup, h.disjoint, h.delayPos,
                h.timers⟩
       · exact minv_connectionLost t h
+  | batch acts flags =>
+    simp only []
+    obtain ⟨h1, h2⟩ := sinv_sync acts t [] h (woken_nil t)
+    exact minv_wakeAll _ _ _ h1 h2
 
 theorem minv_run (es : List Event) : ∀ (t : T), MInv t → MInv (run t es).1 := by
   induction es with
